@@ -6,9 +6,39 @@
  */
 #include "rdsquashfs.h"
 
-static int print_name(const sqfs_tree_node_t *n, bool dont_escape)
+/*
+  The listing is read back by gensquashfs, which splits lines at spaces and
+  tabs and, inside of a quoted token, understands \" and \\ only. Anything
+  that contains one of those characters has to be quoted and escaped.
+ */
+static bool needs_quoting(const char *str)
 {
-	char *start, *ptr, *name;
+	return str[0] == '\0' || strpbrk(str, " \t\"\\") != NULL;
+}
+
+static void print_escaped(const char *str)
+{
+	for (; *str != '\0'; ++str) {
+		if (*str == '"' || *str == '\\')
+			fputc('\\', stdout);
+		fputc(*str, stdout);
+	}
+}
+
+static void print_token(const char *str)
+{
+	if (needs_quoting(str)) {
+		fputc('"', stdout);
+		print_escaped(str);
+		fputc('"', stdout);
+	} else {
+		fputs(str, stdout);
+	}
+}
+
+static int print_name(const sqfs_tree_node_t *n, const char *prefix)
+{
+	char *name;
 	int ret;
 
 	ret = sqfs_tree_node_get_path(n, &name);
@@ -23,30 +53,16 @@ static int print_name(const sqfs_tree_node_t *n, bool dont_escape)
 		return -1;
 	}
 
-	if (dont_escape || (strchr(name, ' ') == NULL &&
-			    strchr(name, '"') == NULL)) {
-		fputs(name, stdout);
+	if (prefix == NULL) {
+		print_token(name);
+	} else if (needs_quoting(prefix) || needs_quoting(name)) {
+		fputc('"', stdout);
+		print_escaped(prefix);
+		fputc('/', stdout);
+		print_escaped(name);
+		fputc('"', stdout);
 	} else {
-		fputc('"', stdout);
-
-		ptr = strchr(name, '"');
-
-		if (ptr != NULL) {
-			start = name;
-
-			do {
-				fwrite(start, 1, ptr - start, stdout);
-				fputs("\\\"", stdout);
-				start = ptr + 1;
-				ptr = strchr(start, '"');
-			} while (ptr != NULL);
-
-			fputs(start, stdout);
-		} else {
-			fputs(name, stdout);
-		}
-
-		fputc('"', stdout);
+		printf("%s/%s", prefix, name);
 	}
 
 	sqfs_free(name);
@@ -60,14 +76,18 @@ static void print_perm(const sqfs_tree_node_t *n)
 }
 
 static int print_simple(const char *type, const sqfs_tree_node_t *n,
-			const char *extra)
+			const char *extra, const char *target)
 {
 	printf("%s ", type);
-	if (print_name(n, false))
+	if (print_name(n, NULL))
 		return -1;
 	print_perm(n);
 	if (extra != NULL)
 		printf(" %s", extra);
+	if (target != NULL) {
+		fputc(' ', stdout);
+		print_token(target);
+	}
 	fputc('\n', stdout);
 	return 0;
 }
@@ -84,22 +104,22 @@ int describe_tree(const sqfs_tree_node_t *root, const char *unpack_root)
 
 	switch (root->inode->base.mode & S_IFMT) {
 	case S_IFSOCK:
-		return print_simple("sock", root, NULL);
+		return print_simple("sock", root, NULL, NULL);
 	case S_IFLNK:
-		return print_simple("slink", root,
+		return print_simple("slink", root, NULL,
 				    (const char *)root->inode->extra);
 	case S_IFIFO:
-		return print_simple("pipe", root, NULL);
+		return print_simple("pipe", root, NULL, NULL);
 	case S_IFREG:
 		if (unpack_root == NULL)
-			return print_simple("file", root, NULL);
+			return print_simple("file", root, NULL, NULL);
 
 		fputs("file ", stdout);
-		if (print_name(root, false))
+		if (print_name(root, NULL))
 			return -1;
 		print_perm(root);
-		printf(" %s/", unpack_root);
-		if (print_name(root, true))
+		fputc(' ', stdout);
+		if (print_name(root, unpack_root))
 			return -1;
 		fputc('\n', stdout);
 		break;
@@ -118,11 +138,11 @@ int describe_tree(const sqfs_tree_node_t *root, const char *unpack_root)
 		sprintf(buffer, "%c %u %u",
 			S_ISCHR(root->inode->base.mode) ? 'c' : 'b',
 			major(devno), minor(devno));
-		return print_simple("nod", root, buffer);
+		return print_simple("nod", root, buffer, NULL);
 	}
 	case S_IFDIR:
 		if (root->name[0] != '\0') {
-			if (print_simple("dir", root, NULL))
+			if (print_simple("dir", root, NULL, NULL))
 				return -1;
 		}
 
